@@ -365,14 +365,19 @@ pub fn run_c11(tier: &str) -> Outcome {
     };
     let (ng, nh, nv) = (space.g_trees.len(), space.h_trees.len(), space.variants.len());
     let total = ng * nh * nv;
-    let acc = super::par_cases(total, |k, acc| {
+    let acc = super::par_cases_sliced(total, if quick { 1 } else { 12 }, |k, acc| {
         let (gi, rest) = (k / (nh * nv), k % (nh * nv));
         let (hi, vi) = (rest / nv, rest % nv);
         let (gs, gd) = &space.g_trees[gi];
         let (hs, hd) = &space.h_trees[hi];
         let (plan, put_first, hplan, h_reads) = space.variants[vi];
-        if !quick && gs.size() + hs.size() >= 7 && (gi + hi + vi) % 5 != 0 {
-            return; // thorough: a fifth of the variants for the largest pairs
+        // thorough: the largest pairs get a rotating (deterministic) share of the 20 variants:
+        // 7 vertices in total a fifth, 4 x 4 a twentieth
+        if !quick && gs.size() + hs.size() == 7 && (gi + hi + vi) % 5 != 0 {
+            return;
+        }
+        if !quick && gs.size() + hs.size() >= 8 && (gi + hi + vi) % 20 != 0 {
+            return;
         }
         for left_node in 0..gs.size() {
             for n in [3usize, 16] {
@@ -408,7 +413,7 @@ pub fn run_c11(tier: &str) -> Outcome {
             machinery.push(format!("vacuous run: situation '{k}' never occurred"));
         }
     }
-    let rule = format!("every pair of labelled trees (left <= {gmax} vertices, right <= {hmax}; labels α0/x/foo, sibling labels distinct), every placement of data (distinct bytes per vertex, inline and heap; and the empty datum), 5 id assignments of the left tree (dense, reversed, gaps, new ids landing on recycled slots, left tree built on recycled slots) x put before/after bind, 3 id assignments of the right tree, the right tree with unread data and with data that was already read before the merge, every `left`, Sodg<3> and Sodg<16>; kept if the reference model says the result stays within the limits. Oracle: Ok; right graph unchanged; the graft applied to the model as add/bind/put (new ids read back from the implementation, each absent before and never returned by next_id) equals the left graph afterwards (vertices, edges); injective mapping; then every order of reads of the data-holding vertices (<= 4 holders: all permutations) compared with the model read by read (bytes and alive set). distinct_nontrivial = merge cases inside the limits");
+    let rule = format!("every pair of labelled trees (left <= {gmax} vertices, right <= {hmax}; in the thorough tier pairs of 7 vertices get a fifth and pairs of 8 a twentieth of the variants, rotating; labels α0/x/foo, sibling labels distinct), every placement of data (distinct bytes per vertex, inline and heap; and the empty datum), 5 id assignments of the left tree (dense, reversed, gaps, new ids landing on recycled slots, left tree built on recycled slots) x put before/after bind, 3 id assignments of the right tree, the right tree with unread data and with data that was already read before the merge, every `left`, Sodg<3> and Sodg<16>; kept if the reference model says the result stays within the limits. Oracle: Ok; right graph unchanged; the graft applied to the model as add/bind/put (new ids read back from the implementation, each absent before and never returned by next_id) equals the left graph afterwards (vertices, edges); injective mapping; then every order of reads of the data-holding vertices (<= 4 holders: all permutations) compared with the model read by read (bytes and alive set). distinct_nontrivial = merge cases inside the limits");
     super::outcome("C11", tier, "exploration", &rule, acc, true, json!({"left_trees": ng, "right_trees": nh, "variants": nv}), t0.elapsed().as_secs_f64(), vec!["checked up to the choice of new ids, which the statement leaves open".to_string(), "the merge inside longer histories (C01-C03 afterwards) is additionally explored by the Merge transition of HX in the C01-C05 runs".to_string()], machinery)
 }
 
@@ -562,24 +567,27 @@ pub fn run_c12(tier: &str) -> Outcome {
             }
         }
     }
-    let mut cases: Vec<DropCase> = vec![];
-    for gs in &g_shapes {
-        for left_node in 0..gs.size() {
-            for (hs, hd) in &h_trees {
-                for ex in &extras {
-                    for right_node in 0..hs.size() {
-                        for h_recycled in [false, true] {
-                            cases.push(DropCase { g_shape: gs.clone(), left_node, h_shape: hs.clone(), h_data: hd.clone(), extras: ex.clone(), right_node, h_recycled });
-                        }
-                    }
-                }
-            }
+    // the case space is a product, decoded from the index (never materialised)
+    let lefts: Vec<(usize, usize)> = g_shapes.iter().enumerate().flat_map(|(gi, gs)| (0..gs.size()).map(move |l| (gi, l))).collect();
+    let (nl, nh, ne) = (lefts.len(), h_trees.len(), extras.len());
+    let total = nl * nh * ne * hmax * 2;
+    let case_at = |i: usize| -> Option<DropCase> {
+        let (h_recycled, i) = (i % 2 == 1, i / 2);
+        let (right_node, i) = (i % hmax, i / hmax);
+        let (ei, i) = (i % ne, i / ne);
+        let (hi, li) = (i % nh, i / nh);
+        let (hs, hd) = &h_trees[hi];
+        if right_node >= hs.size() {
+            return None;
         }
-    }
-    let acc = super::par_cases(cases.len(), |i, acc| {
-        check_drop(acc, &cases[i]);
-        if i % 40_009 == 0 {
-            acc.sample(json!(cases[i]));
+        let (gi, left_node) = lefts[li];
+        Some(DropCase { g_shape: g_shapes[gi].clone(), left_node, h_shape: hs.clone(), h_data: hd.clone(), extras: extras[ei].clone(), right_node, h_recycled })
+    };
+    let acc = super::par_cases_sliced(total, if quick { 1 } else { 8 }, |i, acc| {
+        let Some(c) = case_at(i) else { return };
+        check_drop(acc, &c);
+        if i % 400_009 == 0 {
+            acc.sample(json!(c));
         }
     });
     let mut machinery = vec![];
